@@ -97,7 +97,7 @@ func (g *ExprGen) Gen(t Type, depth int) Expr {
 				if r.Intn(2) == 0 {
 					return &ECall{"num", []Expr{g.Gen(TNum, d)}}
 				}
-				return &EFilter{g.Gen(TNum, d), "inc", []Expr{g.Gen(TNum, 0)}, false}
+				return &EFilter{g.Gen(TNum, d), "inc", []Expr{g.Gen(TNum, d)}, false}
 			}
 			return g.leaf(TNum)
 		case 14:
@@ -106,6 +106,11 @@ func (g *ExprGen) Gen(t Type, depth int) Expr {
 			els := make([]Expr, n)
 			for i := range els {
 				els[i] = g.Gen(TNum, 0)
+			}
+			if r.Intn(2) == 0 {
+				// a computed index: (k + 1) - 1
+				k := r.Intn(n)
+				return &EAttr{&EArr{els}, &EBin{"-", &EBin{"+", &ENum{strconv.Itoa(k)}, &ENum{"1"}}, &ENum{"1"}}, false}
 			}
 			return &EAttr{&EArr{els}, &ENum{strconv.Itoa(r.Intn(n))}, false}
 		default:
@@ -148,7 +153,7 @@ func (g *ExprGen) Gen(t Type, depth int) Expr {
 				n := r.Intn(3)
 				args := make([]Expr, n)
 				for i := range args {
-					args[i] = g.Scalar(0)
+					args[i] = g.Scalar(d)
 				}
 				return &EFilter{g.Scalar(d), "wrap", args, r.Intn(2) == 0}
 			}
@@ -204,7 +209,7 @@ func (g *ExprGen) Gen(t Type, depth int) Expr {
 				case 0:
 					return &ETest{g.Gen(TNum, d), r.Intn(2) == 0, "pos", nil, r.Intn(3) == 0}
 				case 1:
-					return &ETest{g.Scalar(d), r.Intn(2) == 0, "eq", []Expr{g.Scalar(0)}, false}
+					return &ETest{g.Scalar(d), r.Intn(2) == 0, "eq", []Expr{g.Scalar(d)}, false}
 				default:
 					return &ETest{&ENum{strconv.Itoa(r.Intn(20))}, r.Intn(2) == 0, "divisible by", []Expr{&ENum{strconv.Itoa(1 + r.Intn(5))}}, false}
 				}
